@@ -182,6 +182,22 @@ class View:
         'extreme' -> [(value, attaining index, array), ...] -- witnesses contracts may name in lemma chains"""
         return [y[1:] if len(y) > 2 else y[1] for tag, y in (self._trace or []) if tag == 'ghost' and y[0] == kind]
 
+    def ghost_after(self, first_kind, kind):
+        """ghost results of `kind` recorded on this path AFTER the first ghost of `first_kind` (e.g. the int() taken of
+        something that depends on the result of a call)"""
+        seen, out = False, []
+        for tag, y in (self._trace or []):
+            if tag != 'ghost':
+                continue
+            if seen and y[0] == kind:
+                out.append(y[1:] if len(y) > 2 else y[1])
+            if y[0] == first_kind:
+                seen = True
+        return out
+
+    def wrap(self, v):
+        return self._wrap(v)
+
     def _wrap(self, v):
         if isinstance(v, Ref):
             cell = self._heap[v.id]
